@@ -9,7 +9,8 @@ TRUSTED = [
     "harness/runprog.py + harness/runcluster.py (renderer, decoder)",
 ]
 ASSUMPTIONS = [
-    "step functions are the 10 behaviour kinds of harness/runprog.py (sync); async steps and type-conversion errors are exercised by the oracle-only suite `flavours`",
+    "step functions are the 10 behaviour kinds of harness/runprog.py, as plain functions and (a quarter of the runs) as coroutines run by "
+    "behave.api.async_step; type-conversion errors (a registered type whose converter raises) are exercised by the oracle-only suite `flavours`",
 ]
 RULE = ("single-scenario programs: ALL outcome sequences over {pass, fail, error, pending, undefined, skip, kbd, abort} up to the "
         "stated length x {plain, outline row} x {0,1,2} background levels x wip x dry-run x continue_after_failed_step, plus seeded "
@@ -234,6 +235,92 @@ def oracle_rerun(case, obs):
     return []
 
 
+def impl_flavours(case):
+    """type-conversion errors (a registered type whose converter raises) and async step functions, driven directly"""
+    import io, contextlib, parse
+    from behave.configuration import Configuration
+    from behave.runner import ModelRunner
+    from behave.step_registry import StepRegistry
+    from behave.parser import parse_feature
+    from behave import matchers
+    from behave.model import Scenario
+    from behave.api.async_step import async_run_until_complete
+    factory = matchers.get_step_matcher_factory()
+    factory.reset()
+
+    @parse.with_pattern(r"\d+")
+    def small(text):
+        v = int(text)
+        if v > 99:
+            raise ValueError("too big: %s" % text)
+        return v
+    factory.register_type(Small=small)
+    calls = []
+    registry = StepRegistry()
+
+    def mk(kind):
+        def impl(context, n):
+            calls.append([kind, n])
+            if kind == "fail":
+                assert False, "fails"
+            if kind == "error":
+                raise RuntimeError("raises")
+        if not case["async"]:
+            return impl
+
+        @async_run_until_complete
+        async def aimpl(context, n):
+            return impl(context, n)
+        return aimpl
+    for kind in ("pass", "fail", "error"):
+        registry.add_step_definition("step", "%s {n:d}" % kind, mk(kind))
+    registry.add_step_definition("step", "conv {n:Small}", mk("conv"))
+    lines = ["Feature: F", "  Scenario: S"]
+    for i, k in enumerate(case["seq"]):
+        text = {"convbad": "conv %d" % (100 + i), "convok": "conv %d" % i}.get(k, "%s %d" % (k, i))
+        lines.append("    %s %s" % ("Given" if i == 0 else "And", text))
+    sink = io.StringIO()
+    old = Scenario.continue_after_failed_step
+    try:
+        with contextlib.redirect_stdout(sink), contextlib.redirect_stderr(sink):
+            config = Configuration(["--no-color", "--show-skipped"], load_config=False)
+            feature = parse_feature("\n".join(lines) + "\n", filename="f.feature")
+            Scenario.continue_after_failed_step = bool(case["cont"])
+            runner = ModelRunner(config, [feature], step_registry=registry)
+            runner.formatters = []
+            failed = runner.run()
+        sc = feature.scenarios[0]
+        return {"failed": bool(failed), "scenario": sc.status.name, "steps": [s.status.name for s in sc.steps], "calls": calls}
+    finally:
+        Scenario.continue_after_failed_step = old
+        factory.reset()
+
+
+def oracle_flavours(case, obs):
+    want, calls, stopped = [], [], False
+    for i, k in enumerate(case["seq"]):
+        if stopped and not case["cont"]:
+            want.append("skipped")
+            continue
+        st = {"pass": "passed", "convok": "passed", "fail": "failed", "error": "error", "convbad": "error"}[k]
+        want.append(st)
+        if k != "convbad":
+            calls.append([{"convok": "conv"}.get(k, k), i])
+        if st != "passed":
+            stopped = True
+    out = []
+    if obs["steps"] != want:
+        out.append(("%s steps %s%s: statuses %s, expected %s" % ("async" if case["async"] else "sync", case["seq"],
+                                                                   " (continue after failed)" if case["cont"] else "", obs["steps"], want), "flavour-status"))
+    if obs["calls"] != calls:
+        out.append(("%s steps %s: step functions called %s, expected %s (a parameter that cannot be converted is an error of the step, "
+                    "its function is not called; nothing is called after the first non-pass)" % (
+                        "async" if case["async"] else "sync", case["seq"], obs["calls"], calls), "flavour-calls"))
+    if obs["failed"] != any(w in ("failed", "error") for w in want):
+        out.append(("run verdict %s for statuses %s" % (obs["failed"], want), "flavour-verdict"))
+    return out
+
+
 def suites(tier, seed):
     rnd = random.Random(seed * 65537 + 2)
     thorough = tier == "thorough"
@@ -252,6 +339,10 @@ def suites(tier, seed):
                               rnd.random() < 0.3, rnd.random() < 0.4) for _ in range(2 if n == L else 4)]
             for (sh, bg, w, d, c) in variants:
                 cases.append(mk_program(list(seq), sh, bg, w, d, c))
+                if rnd.random() < 0.25:          # the same sequence with async step functions
+                    p2 = mk_program(list(seq), sh, bg, w, d, c)
+                    p2["cfg"]["async_steps"] = True
+                    cases.append(p2)
     for _ in range(6000 if thorough else 700):
         n = rnd.randint(L + 1, 10)
         seq = [rnd.choice(ALPHA + ["pass"] * 6 + ["cleanupok", "cleanupraise"]) for _ in range(n)]
@@ -275,4 +366,15 @@ def suites(tier, seed):
     rerun = {"name": "rerun", "cases": rer, "impl": impl_rerun, "oracle": oracle_rerun,
              "nontrivial": lambda c, o: c["first"] != c["second"],
              "bound": "two-step scenarios, all pairs of attempts over 6 outcomes, second attempt with/without failing before_scenario hook"}
-    return [seqs, rerun]
+    fl = []
+    FL = ["pass", "fail", "convbad", "convok", "error"]
+    for n in range(1, 4 if thorough else 3):
+        for seq in itertools.product(FL, repeat=n):
+            for asyn in (False, True):
+                fl.append({"seq": list(seq), "async": asyn, "cont": False})
+    for _ in range(400 if thorough else 80):
+        fl.append({"seq": [rnd.choice(FL + ["pass"] * 3) for _ in range(rnd.randint(3, 7))], "async": rnd.random() < 0.5, "cont": rnd.random() < 0.3})
+    flavours = {"name": "flavours", "cases": fl, "impl": impl_flavours, "oracle": oracle_flavours, "exhaustive": True,
+                "nontrivial": lambda c, o: "convbad" in c["seq"],
+                "bound": "all sequences up to length %d over {pass, fail, exception, type-conversion error, converted parameter}, sync and async" % (3 if thorough else 2)}
+    return [seqs, rerun, flavours]
